@@ -418,3 +418,45 @@ Example C11_toy_twin_history :
   A = B /\ A = [(42, 7, 50); (1, 1, 1); (77, 6, 2); (9, 6, 4); (77, 5, 3)] /\
   TOY issued_A [] toy_ops = [(77, MsgDelegate 77 5 3); (77, MsgDelegate 77 6 2); (42, MsgWithdrawDelegatorReward 42 5); (42, MsgDelegate 42 7 50)].
 Proof. vm_compute. repeat split; reflexivity. Qed.
+
+(* the signed message's amount is a whole number under the signature: with a hash that depends on the amount (here: IS
+   the amount) and a signature that is the delegator's for exactly one hash, the message signed for 5*10^18 is accepted,
+   the same signature with amount + 2^64 (equal low 64 bits), with bit 64 or bit 255 set, or with amount + 1 is refused,
+   and honest amounts at and above 2^63 / 2^64 / 2^128 are executed as they are *)
+Definition toy_wide := cpc_step (list (Z * Z * Z)) toy_step (fun _ _ => (toy_rewards, false))
+  (fun _ _ => 2 ^ 200) (fun _ _ => []) (fun _ => [VInfo 5 30 1; VInfo 6 10 2; VInfo 7 20 0]) 9
+  (fun c t => match t with TStaking m => sm_amount m | TWithdraw _ => 0 end)
+  (fun h sg => if sg =? h + 1000 then Some 42 else None).
+Example C11_signature_covers_the_whole_amount :
+  let a := 5 * 10 ^ 18 in
+  let signed x sg := toy_wide [] 42 (CDelegateByMessage (StakingMessage ADelegate 42 (Some 5) x true OldDash) sg) in
+  signed a (a + 1000) = Some ([(42, 5, a)], [LDelegate 42 5 a], true, [MsgDelegate 42 5 a]) /\
+  signed (a + 2 ^ 64) (a + 1000) = None /\ signed (a + 3 * 2 ^ 64) (a + 1000) = None /\
+  signed (a + 2 ^ 128) (a + 1000) = None /\ signed (a + 2 ^ 255) (a + 1000) = None /\ signed (a + 1) (a + 1000) = None /\
+  (a + 2 ^ 64) mod 2 ^ 64 = a /\
+  signed (2 ^ 63) (2 ^ 63 + 1000) = Some ([(42, 5, 2 ^ 63)], [LDelegate 42 5 (2 ^ 63)], true, [MsgDelegate 42 5 (2 ^ 63)]) /\
+  signed (2 ^ 64 + 7) (2 ^ 64 + 1007) = Some ([(42, 5, 2 ^ 64 + 7)], [LDelegate 42 5 (2 ^ 64 + 7)], true, [MsgDelegate 42 5 (2 ^ 64 + 7)]) /\
+  signed (2 ^ 128) (2 ^ 128 + 1000) <> None.
+Proof. vm_compute. repeat split; congruence. Qed.
+
+(* validator status lives inside the native module: a toy module (delegations, jailed validators) in which - as in x/staking
+   - an operator's undelegation jails its validator and a delegation to a jailed validator is executed like any other.
+   The precompile has no rule of its own: the operator's undelegate call jails validator 8, and delegate / the signed
+   Delegate / transfer towards the jailed validator do what the native message does *)
+Definition jstate := (list (Z * Z * Z) * list Z)%type.
+Definition jtoy_step (s : jstate) (m : nmsg) : option (jstate * list nevent) :=
+  match m with
+  | MsgDelegate d v a => Some (((d, v, a) :: fst s, snd s), [EvDelegate v d [(BOND, a)]])
+  | MsgUndelegate d v a => Some ((fst s, if d =? v then v :: snd s else snd s), [EvUnbond v d [(BOND, a)]])
+  | _ => None
+  end.
+Definition jtoy := cpc_step jstate jtoy_step (fun _ _ => ([], true)) (fun _ _ => 100) (fun _ _ => [VInfo 8 30 1]) (fun _ => [VInfo 5 30 1])
+  9 (fun c _ => c) (fun h sg => if sg =? 1 then Some 42 else None).
+Example C11_jailed_validator_like_native :
+  jtoy ([], []) 8 (CUndelegate 8 2) = Some (([], [8]), [LUndelegate 8 8 2], true, [MsgUndelegate 8 8 2]) /\
+  jtoy ([], [8]) 42 (CDelegate 8 3) = Some (([(42, 8, 3)], [8]), [LDelegate 42 8 3], true, [MsgDelegate 42 8 3]) /\
+  (match jtoy_step ([], [8]) (MsgDelegate 42 8 3) with Some (s, _) => Some s | None => None end) = Some ([(42, 8, 3)], [8]) /\
+  jtoy ([], [8]) 42 (CDelegateByMessage (StakingMessage ADelegate 42 (Some 8) 3 true OldDash) 1) =
+    Some (([(42, 8, 3)], [8]), [LDelegate 42 8 3], true, [MsgDelegate 42 8 3]) /\
+  jtoy ([], [8]) 42 (CTransfer 42 50) = Some (([(42, 8, 50)], [8]), [LDelegate 42 8 50], true, [MsgDelegate 42 8 50]).
+Proof. vm_compute. repeat split; reflexivity. Qed.
